@@ -111,6 +111,7 @@ type CfgDoc struct {
 	Nums     []int                    `dials:"nums"`
 	Limits   map[string]int           `dials:"limits"`
 	Set      map[string]struct{}      `dials:"set"`
+	Eps      map[DocIn]struct{}       `dials:"eps"` // a set of structs: a list of sections in the document
 	In       DocIn                    `dials:"in"`
 	PIn      *DocIn                   `dials:"p_in"`
 	IP       net.IP                   `dials:"ip"`
@@ -137,6 +138,7 @@ type DocVal struct {
 	Nums       []int            `json:"nums,omitempty"`
 	Limits     map[string]int   `json:"limits,omitempty"`
 	Set        []string         `json:"set,omitempty"`
+	Eps        []int            `json:"eps,omitempty"` // the struct-keyed set: element n is {host_name: "ep<n>", portNum: n}
 	InHost     *string          `json:"in_host,omitempty"`
 	InPort     *int             `json:"in_port,omitempty"`
 	PInHost    *string          `json:"p_in_host,omitempty"`
@@ -242,6 +244,11 @@ func (g *gen) docVal(p int) DocVal {
 	if g.pct(p) {
 		for i, k := 0, g.in(1, 3); i < k; i++ {
 			v.Set = append(v.Set, fmt.Sprintf("s%d-%d", n, i))
+		}
+	}
+	if g.pct(p / 2) {
+		for i, k := 0, g.in(1, 3); i < k; i++ {
+			v.Eps = append(v.Eps, n*10+i)
 		}
 	}
 	if g.pct(p) {
@@ -424,6 +431,12 @@ func (v *DocVal) expected(def *DocVal) *CfgDoc {
 				c.Set[k] = struct{}{}
 			}
 		}
+		if l.Eps != nil {
+			c.Eps = map[DocIn]struct{}{}
+			for _, n := range l.Eps {
+				c.Eps[DocIn{Host: fmt.Sprintf("ep%d", n), Port: n}] = struct{}{}
+			}
+		}
 		if l.InHost != nil {
 			c.In.Host = *l.InHost
 		}
@@ -592,6 +605,20 @@ func (v *DocVal) fields(format string) (top []kv, limits []kv, in []kv, pin []kv
 	}
 	if v.Set != nil {
 		top = append(top, kv{"set", quoteList(v.Set)})
+	}
+	if v.Eps != nil {
+		items := make([]string, len(v.Eps))
+		for i, n := range v.Eps {
+			switch format {
+			case "json":
+				items[i] = fmt.Sprintf(`{"host_name": "ep%d", "portNum": %d}`, n, n)
+			case "toml":
+				items[i] = fmt.Sprintf(`{host_name = "ep%d", portNum = %d}`, n, n)
+			default:
+				items[i] = fmt.Sprintf(`{host_name: "ep%d", portNum: %d}`, n, n)
+			}
+		}
+		top = append(top, kv{"eps", "[" + strings.Join(items, ", ") + "]"})
 	}
 	if v.IP != nil {
 		top = append(top, kv{"ip", str(*v.IP)})
@@ -1237,7 +1264,7 @@ func (r *streamRun) checkUnset(format string, val reflect.Value, v *DocVal, doc 
 	}
 	want := map[string]bool{
 		"Name": v.Name == nil, "Count": v.Count == nil, "Ratio": v.Ratio == nil, "On": v.On == nil, "Wait": v.WaitNS == nil,
-		"When": v.When == nil, "Tags": v.Tags == nil, "Nums": v.Nums == nil, "Limits": v.Limits == nil, "Set": v.Set == nil,
+		"When": v.When == nil, "Tags": v.Tags == nil, "Nums": v.Nums == nil, "Limits": v.Limits == nil, "Set": v.Set == nil, "Eps": v.Eps == nil,
 		"In": v.InHost == nil && v.InPort == nil, "PIn": v.PInHost == nil && v.PInPort == nil && !v.PInEmpty, "IP": v.IP == nil, "Peers": v.Peers == nil, "Alt": v.Alt == nil, "Waits": v.WaitsNS == nil, "Timeouts": v.TimeoutNS == nil,
 		"DocEmb": v.EmbN == nil && v.EmbS == nil && v.EmbInHost == nil && v.EmbInPort == nil, "Whens": v.Whens == nil, "PWaits": v.PWaitsNS == nil, "Deep": v.DeepLabel == nil && v.DeepWaitNS == nil,
 	}
